@@ -75,7 +75,7 @@ def run_case(case, ses):
     name = spec['name']
     if name.startswith('rand'):
         r0, _ = ses.solve(P, label=name + '/feasible')
-        if r0 == 'unsat':
+        if r0 != 'sat':
             ses.stats.kinds['skipped-infeasible-member'] = ses.stats.kinds.get('skipped-infeasible-member', 0) + 1
             return
     iface_cols = sorted(set(cm.iface.values()))
